@@ -17,11 +17,17 @@ class Table:
         self.expr = expr
 
 
-def _dict_entries(d: ast.Dict):
+def _dict_entries(d: ast.Dict, model: Optional[Model] = None, module=None, depth: int = 0):
     out = []
     for k, v in zip(d.keys, d.values):
         if k is None:
-            raise AnalysisError("dict unpacking inside a method table is not supported")
+            # {**A, **B}: expand the unpacked tables (module-level dict literals)
+            sub = _resolve_in_module(model, module, v, depth + 1) if (model is not None and module is not None and depth < 4) else []
+            if not sub:
+                raise AnalysisError("dict unpacking of `%s` inside a method table cannot be resolved to a dict literal" % ast.unparse(v))
+            for _, dd in sub:
+                out += _dict_entries(dd, model, module, depth + 1)
+            continue
         if isinstance(k, ast.Constant) and isinstance(k.value, str):
             out.append((k.value, v, k))
         else:
@@ -79,7 +85,7 @@ def dispatch_tables_in(model: Model, fi: FuncInfo) -> List[Table]:
             if len(c.args) < 3:
                 raise AnalysisError("%s: get_method call without (algname, methods, method)" % fi.fq)
             for label, d in resolve_table_expr(model, fi, c.args[1]):
-                ents = _dict_entries(d)
+                ents = _dict_entries(d, model, fi.module)
                 t = Table(fi, c, label, [(k, v) for k, v, _ in ents], d)
                 t.key_nodes = [kn for _, _, kn in ents]
                 out.append(t)
